@@ -279,6 +279,9 @@ def run(ctx):
     c16.r161(ctx, repo['writer'])
     r1010(ctx)
     r1011(ctx)
+    from . import simple_append as _sa, c02 as _c02
+    _sa.restore_rule(ctx, 'R10.12')
+    _c02.r22(ctx)
     from . import c14
     c14.r145(ctx, 'R10.9')
     # statistics values are binary fields: what is stored there is shared with C04
@@ -287,7 +290,7 @@ def run(ctx):
     from . import callsigs as _cs
     _cs.general_rules(ctx, 'R10', ['writer.write_common_metadata', 'writer.make_part_file', 'util.update_custom_metadata',
                                     'writer.update_file_custom_metadata', 'util.metadata_from_many', 'writer.make_metadata',
-                                    'writer.write_thrift', 'writer.consolidate_categories', 'writer.merge'])
+                                    'writer.write_thrift', 'writer.consolidate_categories', 'writer.merge', 'api.ParquetFile.__setstate__', 'api.ParquetFile.__getstate__'])
     ctx.exhaustive = True
 
 
